@@ -79,6 +79,9 @@ fn check_log(rec: &mut Recorder, lg: &LightGraph, heads: &[CmdId], rows: &[FactR
 fn check_braid(rec: &mut Recorder, lg: &LightGraph, heads: &[CmdId], evs: &[AuditEv], what: &str, label: &str, ask_model: bool) {
     let calls = braid_calls(evs);
     let flags = braid_merge_flags(evs);
+    if std::env::var("VH_DEBUG").is_ok() && heads.len() != 2 || calls.len() > 100 {
+        eprintln!("{label}: {what}: heads {} calls {}", heads.len(), calls.len());
+    }
     if ask_model {
         rec.line(format!("braidorder {}", ids_arg(heads)), show_ids(&calls));
     }
